@@ -3,6 +3,12 @@ from facts import Sym, path_is, strip_generics, strip_sym, sym_arg, sym_calls, s
 from props.common import arg_syms, atomic_ops, callee_method_name, calls_to, crate_stats, gates, in_cycle, kind_consistent, need, nonforeign_calls, one_method, orderings_in, recorder_impls, region_tokens, siblings_isomorphic, RECORDER_METHODS
 from props.c06 import guard_drop_blocks
 
+KEEP = [  # private helpers the rules name (kept as functions); every other non-exported, non-trait function is spliced into its callers
+    "AtomicBucketInstant::clear_with", "AtomicBucketInstant::new", "Block::new", "Block::push",
+    "CompositeKeyName::new", "Generational::new", "Inner::drain_histograms_to_distributions", "Inner::get_recent_metrics",
+    "Inner::new", "Inner::render", "Inner::run_upkeep", "MetricKindMask::value",
+    "PrometheusRecorder::add_description_if_missing", "Reservoir::drain", "Reservoir::push",
+]
 TITLE = "C07 Prometheus output reports exactly what was recorded, each sample once."
 CONFIGS = ["test-profile", "prom-nodefault"]
 INNER = "metrics_exporter_prometheus::recorder::Inner"
@@ -294,6 +300,15 @@ def run(ctx):
         cs = nonforeign_calls(ru)
         ok = len(cs) == 1 and cs[0].is_("Inner::drain_histograms_to_distributions")
         chk.ob("C07.f", ru.path, ok, "run_upkeep only drains histograms into distributions" if ok else f"run_upkeep calls {[callee_method_name(c) for c in cs]}", ru.loc())
+
+    _imports(ctx)
+
+
+def _imports(ctx):
+    from props.common import import_rules
+
+    import_rules(ctx, "C05", {"C05.b", "C05.c", "C05.d", "C05.e"}, "C07.g", "imported from C05 (the histogram storage the exporter drains): a detached block is read only after its in-flight writes are waited for, blocks are linked before they are published, claims are fenced before a block is read, one clearer wins the detach — otherwise a sample recorded concurrently with render()/run_upkeep() is counted zero times", floor=6)
+    import_rules(ctx, "C04", {"C04.b"}, "C07.h", "imported from C04 (the counter/gauge storage whose value is rendered): counter increment/absolute and gauge updates are single atomic read-modify-write operations — otherwise the rendered total is not the sum of increments / the highest absolute value", floor=5)
 
 
 def run_config(ctx):
